@@ -52,11 +52,11 @@ partial def loop (h : IO.FS.Stream) (s : Comp) (sros : List (Nat × List Nat)) (
             if r1.2.1 == "True" then
               let line2 ← h.getLine
               let f2 := (line2.trimAscii.toString.splitOn "|").map fun s => s.trimAscii.toString
-              match mut? r1.1 f2 with
+              match (if f2 == ["reinit"] then some (reinit r1.1, "ok", ([] : List Ev)) else mut? r1.1 f2) with
               | some r2 =>
                 let r3 := registerUtility r2.1 cv pv nmv info
                 IO.println (out (r3.1, r3.2.1, r1.2.2 ++ r3.2.2))
-                IO.println (out r2 ++ " NESTED")
+                IO.println ((if f2 == ["reinit"] then "ok" else out r2) ++ " NESTED")
                 return (← loop h r3.1 sros "")
               | none =>          -- (a shrunk script: no call follows, nothing is armed in the implementation either)
                 let r := registerUtility s cv pv nmv info
@@ -74,7 +74,7 @@ partial def loop (h : IO.FS.Stream) (s : Comp) (sros : List (Nat × List Nat)) (
   | ["persist"] => IO.println "ok"; loop h { s with w := { s.w with verifying := true } } sros
   -- pickle round trip: the volatile counter cache and the lookup objects are rebuilt from what was pickled
   | ["reload"] => IO.println "ok"; loop h (reload s) sros
-  | ["reinit"] => IO.println "ok"; loop h (reinit s) sros
+  | ["reinit"] => IO.println (if nest == "!" then "ok NESTED" else "ok"); loop h (reinit s) sros
   | ["listU"] =>
       IO.println (" ".intercalate (s.utilRegs.map fun e => s!"{e.1.1}/{e.1.2}={e.2.1.v.ident}/{e.2.2}")); loop h s sros
   | ["listA"] =>
